@@ -19,7 +19,7 @@ package main
 // Case line:   <kind> <pool>[/<owner pool>] <tx> <tx> ...
 //
 //	kind = H | HC | HB | HN : the system entity constraint is registered on S | on the child store C only (through the
-//	       isSystem symbol S grants) | on both | nowhere
+//	       isSystem symbol S grants) | on both | nowhere;  HP : on S, and S is a PLAIN store: no child store exists
 //
 //	pool = comma separated wire ids; tx = <top><mode>!<op>;<op>;...
 //	  top  = O | S : the context handed to Db.Update is ordinary | system
@@ -32,6 +32,7 @@ package main
 //	  c:ctx:id:flag:name:mig:cAt:uAt:tag[:owner]          S.Create  &ent{IsSystem: flag, Name: name, Migrate: mig, CreatedAt: cAt, UpdatedAt: uAt, Tags: {"k": tag}, Owner: owner}
 //	  u:ctx:id:flag:name:checker:mig:cAt:uAt:tag[:owner]  S.Update  checker = n (nil) | comma list of field names (may be empty: "-")
 //	      mig = t|f; cAt, uAt = z (zero time) | unix seconds; tag = wire string | ~ (nil map); owner = wire id ("-" = none)
+//	  b:ctx:id:checker                                    S.Update of the entity just loaded with S.FindById, unchanged (write-back)
 //	  d:ctx:id                                            S.DeleteById
 //	  C:ctx:id:flag:name:mig:cAt:uAt:tag:owner:level      C.Create (child store; the parent part may already exist)
 //	  U:ctx:id:flag:name:checker:mig:cAt:uAt:tag:owner:level   C.Update
@@ -135,7 +136,8 @@ type c16Env struct {
 }
 
 // reg: where the system entity constraint is registered: "S" (the parent store), "C" (the child store only, through
-// the isSystem symbol the parent grants), "B" (both), "N" (nowhere)
+// the isSystem symbol the parent grants), "B" (both), "N" (nowhere); "P": the PLAIN shape — constraint on S and no
+// child store at all (S has neither a parent nor child store strategies)
 func c16Open(reg string) *c16Env {
 	dir, err := os.MkdirTemp("", "verif-*")
 	if err != nil {
@@ -175,34 +177,37 @@ func c16Open(reg string) *c16Env {
 	})
 	st.InitImpl(st)
 
-	kids := boltz.NewBaseStore(boltz.StoreDefinition[*c16Kid]{
-		EntityStrategy: &c16KidStrategy{parent: st},
-		BasePath:       []string{"ext"},
-		Parent:         st,
-		ParentMapper: func(entity boltz.Entity) boltz.Entity {
-			if k, ok := entity.(*c16Kid); ok {
-				return &k.c16Ent
-			}
-			return entity
-		},
-		EntityNotFoundF: notFound,
-	})
-	kids.InitImpl(kids)
-	// an update through S of an entity that has child data is handed to the child store (its stored level is kept)
-	st.RegisterChildStoreStrategy(&boltz.ChildStoreUpdateHandler[*c16Ent, *c16Kid]{
-		Store: kids,
-		Mapper: func(ctx boltz.MutateContext, parent *c16Ent) (*c16Kid, bool) {
-			if !kids.IsEntityPresent(ctx.Tx(), parent.Id) {
-				return nil, false
-			}
-			child, found, _ := kids.FindById(ctx.Tx(), parent.Id)
-			if !found || child == nil {
-				return nil, false
-			}
-			child.c16Ent = *parent
-			return child, true
-		},
-	})
+	var kids *boltz.BaseStore[*c16Kid]
+	if reg != "P" {
+		kids = boltz.NewBaseStore(boltz.StoreDefinition[*c16Kid]{
+			EntityStrategy: &c16KidStrategy{parent: st},
+			BasePath:       []string{"ext"},
+			Parent:         st,
+			ParentMapper: func(entity boltz.Entity) boltz.Entity {
+				if k, ok := entity.(*c16Kid); ok {
+					return &k.c16Ent
+				}
+				return entity
+			},
+			EntityNotFoundF: notFound,
+		})
+		kids.InitImpl(kids)
+		// an update through S of an entity that has child data is handed to the child store (its stored level is kept)
+		st.RegisterChildStoreStrategy(&boltz.ChildStoreUpdateHandler[*c16Ent, *c16Kid]{
+			Store: kids,
+			Mapper: func(ctx boltz.MutateContext, parent *c16Ent) (*c16Kid, bool) {
+				if !kids.IsEntityPresent(ctx.Tx(), parent.Id) {
+					return nil, false
+				}
+				child, found, _ := kids.FindById(ctx.Tx(), parent.Id)
+				if !found || child == nil {
+					return nil, false
+				}
+				child.c16Ent = *parent
+				return child, true
+			},
+		})
+	}
 
 	owners.AddIdSymbol("id", ast.NodeTypeString)
 	st.AddExtEntitySymbols()
@@ -213,11 +218,13 @@ func c16Open(reg string) *c16Env {
 	foosSym := owners.AddFkSetSymbol("foos", st)
 	peers := st.AddLinkCollection(peersSym, foosSym)
 	owners.AddLinkCollection(foosSym, peersSym)
-	if reg == "S" || reg == "B" {
+	if reg == "S" || reg == "B" || reg == "P" {
 		st.AddConstraint(boltz.NewSystemEntityEnforcementConstraint(st))
 	}
-	st.GrantSymbols(kids)
-	kids.AddSymbol("level", ast.NodeTypeString)
+	if kids != nil {
+		st.GrantSymbols(kids)
+		kids.AddSymbol("level", ast.NodeTypeString)
+	}
 	if reg == "C" || reg == "B" {
 		kids.AddConstraint(boltz.NewSystemEntityEnforcementConstraint(kids))
 	}
@@ -246,7 +253,8 @@ func (e *c16Env) wipe() {
 
 var c16envs = map[string]*c16Env{}
 
-// first token of a case line: H (constraint on S), HC (on C only), HB (on both), HN (nowhere)
+// first token of a case line: H (constraint on S), HC (on C only), HB (on both), HN (nowhere), HP (constraint on S,
+// plain shape: no child store exists; the generator issues no child-store operations)
 func c16Reg(kind string) string {
 	switch kind {
 	case "H":
@@ -257,6 +265,8 @@ func c16Reg(kind string) string {
 		return "B"
 	case "HN":
 		return "N"
+	case "HP":
+		return "P"
 	}
 	panic("bad case kind " + kind)
 }
@@ -415,6 +425,19 @@ func (e *c16Env) op(top boltz.MutateContext, op string) string {
 		ent := c16Entity(f[2], f[3], f[4], f[6], f[7], f[8], f[9], c16Opt(f, 10))
 		checker := c16MkChecker(f[5])
 		return c16Err(e.with(top, f[1], func(ctx boltz.MutateContext) error { return e.store.Update(ctx, ent, checker) }))
+	case "b":
+		// write-back: the entity is loaded from the store and handed to Update as it is (checker as for u)
+		checker := c16MkChecker(f[3])
+		return c16Err(e.with(top, f[1], func(ctx boltz.MutateContext) error {
+			ent, found, err := e.store.FindById(ctx.Tx(), fromWire(f[2]))
+			if err != nil {
+				return err
+			}
+			if !found {
+				return boltz.NewNotFoundError(boltz.GetSingularEntityType(c16Type), "id", fromWire(f[2]))
+			}
+			return e.store.Update(ctx, ent, checker)
+		}))
 	case "d":
 		return c16Err(e.with(top, f[1], func(ctx boltz.MutateContext) error { return e.store.DeleteById(ctx, fromWire(f[2])) }))
 	case "C":
@@ -501,7 +524,7 @@ func (e *c16Env) view(tx *bbolt.Tx, pool, opool []string) string {
 				}
 			}
 			level := "~"
-			if e.kids.IsEntityPresent(tx, id) {
+			if e.kids != nil && e.kids.IsEntityPresent(tx, id) {
 				kid, kfound, kerr := e.kids.FindById(tx, id)
 				switch {
 				case kerr != nil || !kfound:
@@ -631,6 +654,13 @@ func c16Gen(tier string, seed uint64, out *bufio.Writer) {
 	// the same paths with the constraint registered on the child store only / on both stores
 	c16Indirect(out, "HC")
 	c16Indirect(out, "HB")
+	// the plain shape: the constrained store has no child store at all (cascade, queries, links; no child-store paths)
+	c16Indirect(out, "HP")
+	// updates that change nothing, in every shape
+	c16NoChange(out, "HP")
+	c16NoChange(out, "H")
+	c16NoChange(out, "HC")
+	c16Reuse(out)
 	n := 2500
 	if tier == "thorough" {
 		n = 50000
@@ -711,7 +741,7 @@ func c16Indirect(out *bufio.Writer, kind string) {
 
 	// (1) cascade: owner o1 with referrers a, b (c refers to o2 or nothing); O.DeleteById(o1) from every context
 	vias := []string{"c"}
-	if !full {
+	if !full && kind != "HP" {
 		vias = []string{"c", "C"}
 	}
 	for _, via = range vias {
@@ -746,6 +776,9 @@ func c16Indirect(out *bufio.Writer, kind string) {
 	// through the child store from every context
 	pool1 := a + "/" + o1
 	for _, pflag := range []string{"t", "f", "-"} { // "-": no parent yet
+		if kind == "HP" {
+			break // no child store in this shape
+		}
 		for _, withKid := range []bool{false, true} {
 			if pflag == "-" && withKid {
 				continue
@@ -807,6 +840,63 @@ func c16Indirect(out *bufio.Writer, kind string) {
 	}
 }
 
+// updates that change nothing: the entity is loaded and written back as it is (nil checker, empty checker, checkers
+// naming fields whose values are unchanged, checkers naming fields Update never writes), from every kind of context,
+// on a system / ordinary entity created with given or clock timestamps, in the creating or a later transaction
+func c16NoChange(out *bufio.Writer, kind string) {
+	a, o1 := toWire("a"), toWire("o1")
+	vias := []string{"c"}
+	if kind != "HP" {
+		vias = []string{"c", "C"}
+	}
+	modes := []string{"a"}
+	if kind == "HP" {
+		modes = []string{"a", "k"}
+	}
+	for _, via := range vias {
+		for _, cflag := range []string{"t", "f"} {
+			for _, cmig := range []string{"t", "f"} {
+				create := "c:s:" + a + ":" + cflag + ":" + toWire("n0") + ":" + c16Rest(cmig, "1000", "2000", "t0") + ":" + o1
+				if via == "C" {
+					create = "C:s:" + a + ":" + cflag + ":" + toWire("n0") + ":" + c16Rest(cmig, "1000", "2000", "t0") + ":" + o1 + ":" + toWire("l0")
+				}
+				for _, ctx := range c16CtxKinds {
+					for _, ch := range []string{"n", "-", "name", "name,tags,owner", "isSystem,createdAt"} {
+						for _, top := range []string{"O", "S"} {
+							for _, mode := range modes {
+								fmt.Fprintf(out, "%s %s/%s Sa!oc:o:%s;%s %s%s!b:%s:%s:%s;r:%s Oa!r:%s\n", kind, a, o1, o1, create, top, mode, ctx, a, ch, a, a)
+								fmt.Fprintf(out, "%s %s/%s Sa!oc:o:%s %s%s!%s;b:%s:%s:%s Oa!r:%s\n", kind, a, o1, o1, top, mode, create, ctx, a, ch, a)
+							}
+						}
+					}
+				}
+			}
+		}
+	}
+}
+
+// one mutate context, one id, changing kind: an ordinary entity passes the checks of an ordinary context, is deleted,
+// the id comes back as a system entity (created by the derived system context, or attempted by the ordinary one), and
+// the same ordinary context touches it again — whatever a context remembers about an id must not outlive the entity
+func c16Reuse(out *bufio.Writer) {
+	a := toWire("a")
+	ord := "c:o:" + a + ":f:" + toWire("n0") + ":" + c16Rest("f", "z", "z", "~") + ":-"
+	upd := "u:o:" + a + ":f:" + toWire("n1") + ":n:" + c16Rest("f", "z", "z", "~") + ":-"
+	for _, kind := range []string{"H", "HP"} {
+		for _, first := range []string{ord, ord + ";" + upd, ord + ";b:o:" + a + ":n"} {
+			for _, sctx := range []string{"s", "n", "o"} {
+				sys := "c:" + sctx + ":" + a + ":t:" + toWire("n2") + ":" + c16Rest("f", "z", "z", "~") + ":-"
+				for _, last := range []string{upd, "d:o:" + a, "b:o:" + a + ":n", "w:o:T"} {
+					for _, mode := range []string{"a", "k"} {
+						fmt.Fprintf(out, "%s %s/ O%s!%s;d:o:%s;%s;%s;r:%s Oa!r:%s\n", kind, a, mode, first, a, sys, last, a, a)
+						fmt.Fprintf(out, "%s %s/ Oa!%s O%s!%s;d:o:%s;%s;%s;r:%s Oa!r:%s\n", kind, a, ord, mode, upd, a, sys, last, a, a)
+					}
+				}
+			}
+		}
+	}
+}
+
 func c16History(r *rng, out *bufio.Writer) {
 	np := 2 + r.intn(3)
 	seen := map[string]bool{}
@@ -838,6 +928,17 @@ func c16History(r *rng, out *bufio.Writer) {
 			return "-"
 		}
 		return toWire(pick(r, opool))
+	}
+	kind := "H"
+	switch w := r.intn(20); {
+	case w < 5:
+		kind = "HC"
+	case w < 9:
+		kind = "HB"
+	case w < 10:
+		kind = "HN"
+	case w < 13:
+		kind = "HP"
 	}
 	ntx := 2 + r.intn(6)
 	var txs []string
@@ -885,7 +986,16 @@ func c16History(r *rng, out *bufio.Writer) {
 			}
 			rest := c16Rest(mig, pick(r, c16Stamps), pick(r, c16Stamps), pick(r, c16Tags))
 			name := toWire(pick(r, c16Names))
-			switch w := r.intn(100); {
+			w := r.intn(100)
+			if kind == "HP" && ((w >= 21 && w < 34) || (w >= 48 && w < 56) || (w >= 64 && w < 68)) {
+				// no child store in the plain shape: write-backs and plain updates instead
+				if r.chance(1, 2) {
+					w = 96
+				} else {
+					w = 40
+				}
+			}
+			switch {
 			case w < 20:
 				ops = append(ops, "c:"+ctx+":"+id+":"+flag+":"+name+":"+rest+":"+owner())
 			case w < 21:
@@ -927,20 +1037,13 @@ func c16History(r *rng, out *bufio.Writer) {
 				ops = append(ops, "l:"+id+":"+toWire(pick(r, opool)))
 			case w < 96:
 				ops = append(ops, "x:"+id+":"+toWire(pick(r, opool)))
+			case w < 99:
+				ops = append(ops, "b:"+ctx+":"+id+":"+pick(r, c16Checkers))
 			default:
 				ops = append(ops, "r:"+id)
 			}
 		}
 		txs = append(txs, top+mode+"!"+strings.Join(ops, ";"))
-	}
-	kind := "H"
-	switch w := r.intn(20); {
-	case w < 6:
-		kind = "HC"
-	case w < 11:
-		kind = "HB"
-	case w < 12:
-		kind = "HN"
 	}
 	fmt.Fprintf(out, "%s %s/%s %s\n", kind, strings.Join(wp, ","), strings.Join(wo, ","), strings.Join(txs, " "))
 }
